@@ -1,7 +1,7 @@
 \* thorough tier: source 4+2, most concurrent shape x 2 faults
 CONSTANTS
   MaxIdx = 6
-  FaultKinds = {"short", "fetchErr", "quota", "fatal", "rootErr", "sthErr", "consErr", "cancel", "revoke"}
+  FaultKinds = {"short", "emptyPage", "fetchErr", "quota", "fatal", "rootErr", "sthErr", "consErr", "cancel", "revoke"}
   KeepHist = FALSE
   SrcSizes = {4}
   Growths = {2}
@@ -16,6 +16,6 @@ CONSTANTS
   MaxRestarts = 1
 INIT MCInit
 NEXT Next
-INVARIANTS TypeOK Mirror Bounded Gate NoConflict QuotaRetried Complete VerbatimBad PrefixOK
+INVARIANTS TypeOK Mirror Bounded Gate NoConflict QuotaRetried Complete PosCovered VerbatimBad PrefixOK
 PROPERTIES GateAct QuotaAct
 CHECK_DEADLOCK FALSE
